@@ -84,6 +84,8 @@ enum S {
     ForRange(&'static str, u8, u8, Vec<S>),
     /// x = [k * (] (if c { stmts; e1 } else { stmts; e2 }) [& 15u8)];  -- a right-hand side with side effects (scalar variable on the left)
     AssignFx(&'static str, Option<u8>, C, Vec<S>, E, Vec<S>, E),
+    /// place = (if c { stmts; e1 } else { stmts; e2 });  -- an element / field on the left (only in the directed programs of known finding C14-F1)
+    AssignPlaceFx(Place, C, Vec<S>, E, Vec<S>, E),
 }
 
 #[derive(Clone, Debug)]
@@ -219,6 +221,13 @@ fn s_src(s: &S, ind: usize, acc: &str, out: &mut Vec<String>) {
             out.push(format!("{pad}}} else {{"));
             block_src(fs, fe, ind, acc, out);
             out.push(format!("{pad}}}){post};"));
+        }
+        S::AssignPlaceFx(pl, c, ts, te, fs, fe) => {
+            out.push(format!("{pad}{} = (if {} {{", place_src(pl), c_src(c)));
+            block_src(ts, te, ind, acc, out);
+            out.push(format!("{pad}}} else {{"));
+            block_src(fs, fe, ind, acc, out);
+            out.push(format!("{pad}}});"));
         }
         S::ForRange(v, lo, hi, body) => {
             out.push(format!("{pad}for {v} in {lo}u8..{hi}u8 {{"));
@@ -451,6 +460,11 @@ impl Interp<'_> {
                 let mut v = if self.c(env, c) { self.block(env, ts, te, acc) } else { self.block(env, fs, fe, acc) };
                 if let Some(k) = k { v = k * (v & 15); }
                 *lookup(env, x) = V::U(v);
+            }
+            S::AssignPlaceFx(pl, c, ts, te, fs, fe) => {
+                // the right-hand side is evaluated first (with its effects), then the element / field is stored
+                let v = if self.c(env, c) { self.block(env, ts, te, acc) } else { self.block(env, fs, fe, acc) };
+                *self.place(env, pl) = V::U(v);
             }
             S::ForRange(v, lo, hi, body) => {
                 for x in *lo..*hi {
@@ -936,10 +950,19 @@ fn inputs_for(rng: &mut Rng) -> Vec<(u8, u8, bool)> {
     v
 }
 
-/// the failing programs recorded as known findings: (id, a test that recognises the finding in a shrunk report)
-fn known_match(id: &str, text: &str) -> bool {
-    let _ = (id, text);
-    false
+/// Known finding C14-F1 (directed programs, not part of the random generation): VarAssign reads the assigned variable before it compiles the
+/// right-hand side, so an assignment to the SAME variable inside the right-hand side of an element / field assignment is lost.
+fn f1_programs() -> Vec<Program> {
+    let t = || C::Cmp("==", E::Lit(1), E::Lit(1));
+    let mk = |s: S| Program { helpers: vec![], main: vec![s] };
+    vec![
+        // arr[0] = (if 1 == 1 { arr[1] = x; 7 } else { 0 });
+        mk(S::AssignPlaceFx(Place::Idx("arr", Ix::C(0)), t(), vec![S::Assign(Place::Idx("arr", Ix::C(1)), E::Var("x"))], E::Lit(7), vec![], E::Lit(0))),
+        // t.0 = (if 1 == 1 { t.1 = y; 7 } else { 0 });
+        mk(S::AssignPlaceFx(Place::TupF("t", 0), t(), vec![S::Assign(Place::TupF("t", 1), E::Var("y"))], E::Lit(7), vec![], E::Lit(0))),
+        // p.a = (if c { p.c = 9; 1 } else { 2 });
+        mk(S::AssignPlaceFx(Place::Fld(0), C::Flag, vec![S::Assign(Place::Fld(2), E::Lit(9))], E::Lit(1), vec![], E::Lit(2))),
+    ]
 }
 
 pub fn search(args: &[String]) -> i32 {
@@ -947,13 +970,29 @@ pub fn search(args: &[String]) -> i32 {
     let programs = arg_u64(args, "--programs", 1500);
     let known: Vec<String> = arg(args, "--known").map(|s| s.split(',').map(|x| x.to_string()).collect()).unwrap_or_default();
     let mut rng = Rng(seed ^ 0xC14);
-    let (mut checked, mut rejected, mut known_hits) = (0u64, 0u64, vec![]);
+    let (mut checked, mut rejected) = (0u64, 0u64);
     let prev = std::panic::take_hook();
     if std::env::var("REPLAY_DEBUG").is_err() {
         std::panic::set_hook(Box::new(|_| {}));
     }
     let mut found = None;
+    let mut f1_cases = 0;
+    for p in f1_programs() {
+        let inputs = [(5u8, 200u8, true), (0, 1, false), (255, 7, true)];
+        if let Err(w) = check_program(&p, &inputs) {
+            if known.iter().any(|k| k == "C14-F1") {
+                f1_cases += 1;
+            } else {
+                found = Some(report(&p, &w, seed));
+                break;
+            }
+        }
+    }
+    if f1_cases > 0 {
+        println!("known-finding: C14-F1 cases={f1_cases} example=arr[0] = (if 1u8 == 1u8 {{ arr[1] = x; 7u8 }} else {{ 0u8 }}) leaves arr[1] unchanged");
+    }
     for _ in 0..programs {
+        if found.is_some() { break; }
         let p = random_program(&mut rng);
         let inputs = inputs_for(&mut rng);
         match check_program(&p, &inputs) {
@@ -968,19 +1007,12 @@ pub fn search(args: &[String]) -> i32 {
             Err(w) => {
                 let (p2, w2) = shrink(p, &inputs, w);
                 let text = report(&p2, &w2, seed);
-                if let Some(id) = known.iter().find(|id| known_match(id, &text)) {
-                    if !known_hits.contains(id) { known_hits.push(id.clone()); }
-                    continue;
-                }
                 found = Some(text);
                 break;
             }
         }
     }
     std::panic::set_hook(prev);
-    for id in &known_hits {
-        println!("known: {id}");
-    }
     match found {
         Some(text) => {
             write_out(args, &text);
